@@ -135,14 +135,16 @@ func (vfs *MemFS) VolumeDelete(path string) error {
 		return &fs.PathError{Op: op, Path: path, Err: avfs.ErrVolumeNameInvalid}
 	}
 
-	_, ok := vfs.volumes[vol]
+	volNode, ok := vfs.volumes[vol]
 	if !ok {
 		return &fs.PathError{Op: op, Path: path, Err: avfs.ErrVolumeNameInvalid}
 	}
 
-	err := vfs.RemoveAll(vol)
+	// the files are removed through the root node of the volume : vol as a path is relative
+	// to the current directory ("D:") or names a root directory that can't be removed (UNC).
+	err := vfs.removeAll(volNode)
 	if err != nil {
-		return err
+		return &fs.PathError{Op: op, Path: path, Err: err}
 	}
 
 	delete(vfs.volumes, vol)
